@@ -141,7 +141,7 @@ def tlc_mc(module, cfg, workers=8, timeout=1800, coverage=True, xmx="8g", extra=
     return res
 
 
-def tlc_generate(module, cfg, prefix="REPLAY|", workers=8, timeout=1800, xmx="8g", simulate=None, seed=None):
+def tlc_generate(module, cfg, prefix="REPLAY|", workers=8, timeout=1800, xmx="8g", simulate=None, seed=None, env=None):
     """Runs a generator config; collects the payloads of PrintT("REPLAY|..json..") lines."""
     md = _metadir(os.path.basename(cfg))
     args = ["-workers", str(workers), "-metadir", md, "-cleanup", "-noGenerateSpecTE",
@@ -151,7 +151,7 @@ def tlc_generate(module, cfg, prefix="REPLAY|", workers=8, timeout=1800, xmx="8g
         if seed is not None:
             args += ["-seed", str(seed)]
     args.append(os.path.join(SPEC, module))
-    rc, out = _java(args, {}, timeout, xmx=xmx, xss="64m")
+    rc, out = _java(args, dict(env or {}), timeout, xmx=xmx, xss="64m")
     shutil.rmtree(md, ignore_errors=True)
     if not simulate and (rc != 0 or "No error has been found" not in out):
         raise ToolError("generator %s/%s failed:\n%s" % (module, cfg, out[-4000:]))
@@ -333,7 +333,7 @@ class Run:
         out_lines = []
         nviol = 0
         for (c, m, prelude, epilogue) in self.mismatches:
-            key = "%s:%s" % (m["kind"], m["sig"].replace(" ", ""))
+            key = "%s:%s" % (m["kind"], m["sig"].replace(" ", "").replace('\\"', "").replace('"', ""))
             hit = None
             for k in known:
                 if k["key"] == m["kind"] or k["key"] == key or re.fullmatch(k["key"], key):
